@@ -386,6 +386,12 @@ func (jp *jobProvider) refreshFile(stat os.FileInfo, filename string, symlink st
 		return
 	}
 
+	// the name may point to another file since stat was taken (rotation by rename):
+	// the job has to be the job of the file that was opened
+	if opened, err := file.Stat(); err == nil && !os.SameFile(stat, opened) {
+		stat = opened
+	}
+
 	jp.addJob(file, stat, filename, symlink)
 }
 
